@@ -285,9 +285,13 @@ Definition model_probe (universe : list hdr) (c : cfg) : list (N * N) :=
 
 Definition pairNN_eqb (x y : N * N) : bool := (fst x =? fst y) && (snd x =? snd y).
 
+(** the script was run over the slow store (every Store.Append parked, then released or failed by the driver) *)
+Definition uses_gate (l : list dact) : bool :=
+  existsb (fun a => match a with DRelL | DFailL | DFailT _ => true | _ => false end) l.
+
 Definition model07 (k : case07) : list obs * bool * list (N * N) :=
   let u := k_init k ++ k_chain k in
-  let '(os, cf) := sim (k_drift k) 0 false u (init_cfg (k_tail k) (k_init k)) (map fst (k_acts k)) in
+  let '(os, cf) := sim (k_drift k) 0 (uses_gate (map fst (k_acts k))) u (init_cfg (k_tail k) (k_init k)) (map fst (k_acts k)) in
   (os, sync_wait_returns cf, model_probe u cf).
 
 Definition agree07 (k : case07) : bool :=
@@ -321,7 +325,8 @@ Fixpoint honest07 (u : list hdr) (prev_req : option (N * N)) (l : list (dact * o
      | DDeliver h _ _ => hdr_in h u
      | DHead (Some h) | DHeadP (Some h) => hdr_in h u
      | DHead None | DHeadP None => true
-     | DRelT _ => true          (* a delayed Head() call goes on with its answer *)
+     | DRelT _ => true          (* a delayed Head() call goes on with its answer / a parked store write goes on *)
+     | DRelL | DFailL | DFailT _ => true   (* the slow store: a parked write goes on or fails *)
      | DAnswer AErr => true
      | DAnswer (APrefix k) =>
        match prev_req with
@@ -338,7 +343,14 @@ Definition accepted_height (all : list (dact * obs)) (a : dact) (o : obs) : N :=
   match a with
   | DDeliver h _ _ => if o_ret o =? 1 then h_height h else 0
   | DHead (Some h) => h_height h
-  | DRelT i => match nth_call all i with Some (DHeadP (Some h)) => h_height h | _ => 0 end
+  | DRelT i | DFailT i =>
+    (* a delayed Head() call's answer; a gossip header whose store write was parked: verified before, it becomes
+       the subjective head when setLocalHead goes on (stored, or - after a failed write - pending) *)
+    match nth_call all i with
+    | Some (DHeadP (Some h)) => h_height h
+    | Some (DDeliver h _ _) => h_height h
+    | _ => 0
+    end
   | _ => 0
   end.
 
@@ -346,8 +358,9 @@ Definition accepted_height (all : list (dact * obs)) (a : dact) (o : obs) : N :=
 Definition atomic07 (l : list (dact * obs)) : bool :=
   forallb (fun p => match fst p with DDeliver _ _ _ | DHead _ | DAnswer _ => true | _ => false end) l.
 
+(** what aborts a sync attempt: a getter error, or the failing write of the loop's Append *)
 Definition is_err_answer (a : dact) : bool :=
-  match a with DAnswer AErr => true | _ => false end.
+  match a with DAnswer AErr | DFailL => true | _ => false end.
 
 (** walk over the observations: [newest] = newest verified head so far,
     [prev] = previous observation *)
